@@ -3,7 +3,7 @@
 #define T_FRESH(self) (__CPROVER_is_fresh(self, sizeof(*self)))
 #define T_BOOLS(self) (BOOL_OK((self)->m_open) && BOOL_OK((self)->m_non_blocking) && BOOL_OK((self)->m_dont_fragment) && BOOL_OK((self)->m_is_v4) && BOOL_OK((self)->m_recv_null_buffers) && BOOL_OK((self)->m_send_null_buffers))
 #define T_SLOTS(self) (FN_SLOT_OK((self)->m_connect_handler) && FN_SLOT_OK((self)->m_send_handler) && FN_SLOT_OK((self)->m_wait_send_handler) && FN_SLOT_OK((self)->m_recv_handler) && FN_SLOT_OK((self)->m_wait_recv_handler))
-#define T_NUM(self) ((self)->m_mss >= 1 && (self)->m_mss <= PKT_MAX && (self)->m_cwnd >= (self)->m_mss && (self)->m_cwnd <= SZ_MAX && (self)->m_bytes_in_flight >= 0 && (self)->m_bytes_in_flight <= SZ_MAX && (self)->m_queue_size >= 0 && (self)->m_queue_size <= SZ_MAX)
+#define T_NUM(self) ((self)->m_mss >= 1 && (self)->m_mss <= SEG_MAX && (self)->m_cwnd >= (self)->m_mss && (self)->m_cwnd <= SZ_MAX && (self)->m_bytes_in_flight >= 0 && (self)->m_bytes_in_flight <= SZ_MAX && (self)->m_queue_size >= 0 && (self)->m_queue_size <= SZ_MAX)
 /* [C06.flight] the bytes in flight are exactly the sizes of the outstanding segments */
 #define T_FLIGHT(self) ((int64_t)(self)->m_bytes_in_flight == (self)->m_outstanding_packet_sizes.sum)
 #define MY_IDX(self) ((self)->m_channel->ep[0] == (self)->m_bound_to ? 0 : 1)
@@ -12,7 +12,11 @@
 #define T_SEQ(self) ((self)->m_outstanding_packet_sizes.bound <= (self)->m_next_outgoing_seq)
 #define T_SEQ_SMALL2(self) ((self)->m_next_outgoing_seq < ((uint64_t)1 << 42) && (self)->m_next_incoming_seq < ((uint64_t)1 << 42))
 #define T_SEQ_SMALL(self) ((self)->m_next_outgoing_seq < ((uint64_t)1 << 40) && (self)->m_next_incoming_seq < ((uint64_t)1 << 40))
-#define INV_tcp(self) (T_BOOLS(self) && T_SLOTS(self) && T_NUM(self) && T_FLIGHT(self) && T_SEQ(self) && SMI_OK((self)->m_outstanding_packet_sizes) && SMP_OK((self)->m_reorder_buffer) && \
+/* at most one receive-side operation is outstanding (the public entry points abort the previous one first); the
+ * null-buffers flag says which; wait-for-write is not implemented (m_send_null_buffers is never set) */
+#define T_RECV(self) (((self)->m_recv_null_buffers ? ((self)->m_wait_recv_handler != 0 && (self)->m_recv_handler == 0) : (self)->m_wait_recv_handler == 0) && (self)->m_send_null_buffers == 0 && (self)->m_wait_send_handler == 0)
+#define INV_tcp(self) (T_RECV(self) && INV_tcp_noR(self))
+#define INV_tcp_noR(self) (T_BOOLS(self) && T_SLOTS(self) && T_NUM(self) && T_FLIGHT(self) && T_SEQ(self) && SMI_OK((self)->m_outstanding_packet_sizes) && SMP_OK((self)->m_reorder_buffer) && \
    INV_hrtimer(&(self)->m_connect_timer) && INV_hrtimer(&(self)->m_recv_timer) && EP_VALID((self)->m_bound_to))
 #define CH_FRESH(self) ((self)->m_channel == (struct channel *)0 ? 1 : __CPROVER_is_fresh((self)->m_channel, sizeof(struct channel)))
 /* a connected socket is one end of its channel */
